@@ -29,8 +29,14 @@ Deriv(d) ==
   /\ d \in DerivsOf(Kind)
   /\ memo' = IF CarryMemo THEN memo ELSE <<>>
   /\ script' = Append(script, d) /\ ret' = NoRet
+\* a draw answers from the content as it is (it is never memoised) and then belongs to it
+Draw(d) ==
+  /\ d \in DrawsOf(Kind)
+  /\ ret' = <<d, Content>>
+  /\ memo' = IF Invalidate THEN <<>> ELSE memo
+  /\ script' = Append(script, d)
 Next == /\ Len(script) < MaxLen
-        /\ \E o \in ReadsOf(Kind) \cup MutsOf(Kind) \cup DerivsOf(Kind) : Read(o) \/ Mut(o) \/ Deriv(o)
+        /\ \E o \in ReadsOf(Kind) \cup MutsOf(Kind) \cup DerivsOf(Kind) \cup DrawsOf(Kind) : Read(o) \/ Mut(o) \/ Deriv(o) \/ Draw(o)
 Spec == Init /\ [][Next]_vars
 
 \* a read that has just returned returned the ideal value
@@ -38,10 +44,11 @@ ReadsAreIdeal == (ret # NoRet) => ret = Ideal(Kind, ret[1], SubSeq(script, 1, Le
 \* the store never holds anything computed from another content than the present one (the inductive reason for the theorem)
 StoreIsCurrent == \A r \in DOMAIN memo : memo[r] = Content
 \* reads change nothing (action property): the content before and after a read is the same
-ReadsLeaveTheContent == [][(ret' # NoRet) => ContentOf(Kind, script') = ContentOf(Kind, script)]_vars
+ReadsLeaveTheContent == [][(ret' # NoRet /\ ret'[1] \in ReadsOf(Kind)) => ContentOf(Kind, script') = ContentOf(Kind, script)]_vars
 \* the classes partition the alphabet
 AlphabetIsPartitioned == /\ ReadsOf(Kind) \cap MutsOf(Kind) = {} /\ ReadsOf(Kind) \cap DerivsOf(Kind) = {} /\ MutsOf(Kind) \cap DerivsOf(Kind) = {}
-                         /\ \A r \in ReadsOf(Kind) : Owner(Kind, r) \in {"C04", "C09", "C15", "C17", "C19"}
+                         /\ DrawsOf(Kind) \cap (ReadsOf(Kind) \cup MutsOf(Kind) \cup DerivsOf(Kind)) = {}
+                         /\ \A r \in ReadsOf(Kind) \cup DrawsOf(Kind) : Owner(Kind, r) \in {"C04", "C05", "C09", "C10", "C15", "C17", "C19"}
 
-ExportCase == (Export /\ script # <<>> /\ script[Len(script)] \in LastReads) => PrintT(<<"CASE", script>>)
+ExportCase == (Export /\ script # <<>> /\ script[Len(script)] \in LastReads \cup DrawsOf(Kind)) => PrintT(<<"CASE", script>>)
 =============================================================================
